@@ -116,9 +116,11 @@ def dstarStarX : Pattern := [.dstar, .glob [.one .star, .one (.lit '.'), .one (.
 -- the patterns above are what the parser makes of the strings
 example : Pattern.parse ['*', '.', 'x'] = some starX := by decide
 example : Pattern.parse ['*', '*', '/', '*', '.', 'x'] = some dstarStarX := by decide
--- outside the subset: a character class, an escape, an empty segment, `***`
+-- an escaped star is a literal star
+example : Pattern.parse ['a', '\\', '*', '*'] = some [.glob [.one (.lit 'a'), .one (.lit '*'), .one .star]] := by decide
+-- outside the subset: a character class, a backslash with nothing to escape, an empty segment, `***`
 example : Pattern.parse ['[', 'a', ']', '*'] = none := by decide
-example : Pattern.parse ['a', '\\', '*'] = none := by decide
+example : Pattern.parse ['a', '*', '\\'] = none := by decide
 example : Pattern.parse ['a', '/', '/', '*'] = none := by decide
 example : Pattern.parse ['a', '*', '*', '*'] = none := by decide
 -- `task.New`: `?ain.x` is not a glob, `*.x` is
